@@ -27,3 +27,16 @@ PROPS = {
         assumes=["leaf lists shorter than 2^32"],
     ),
 }
+
+PROPS["C01"] = dict(
+    n_quick=400, n_thorough=6000, audit=8, audit_maxlen=4000,
+    rule="three streams: (i) structured values over the feature lattice (coinbase/plain/pegin/issuance/reissuance inputs x null/explicit/confidential "
+         "asset,value,nonce x the six witness fields x proof/dynafed(null/compact/full) headers x lengths around every varint boundary) serialised by the crate, "
+         "(ii) the repository's own hex vectors, (iii) 1-3 stacked byte-level mutations of (i) aimed at the canonicity rules (flag byte, high bits of u32s, "
+         "non-minimal varints, prefixes, truncation, extension) + targeted outpoint-flag inputs; distinct = distinct (type, bytes); non-trivial = the decoder accepted it",
+    trusted=["curve-point validity (Generator/PedersenCommitment/PublicKey::from_slice) is an oracle `pt_ok`: the harness reports, for every 33-byte window of the input, "
+             "whether libsecp256k1 accepts it; theorems hold for every oracle",
+             "range/surjection proof acceptance is the header/format rule transcribed from the vendored C sources (secp256k1-zkp-sys 0.10.1); proofs are stored and re-serialised verbatim",
+             "Vec<T> element caps MAX_VEC_SIZE/size_of::<T>() are parameters reported by the harness from std::mem::size_of (theorems hold for every value)"],
+    assumes=["values are compared through their re-encoding and a structural summary (flags, counts), not field by field"],
+)
